@@ -575,6 +575,8 @@ Definition lookup_spec (dc : list N) (bad : list bytes) (cfgs : list (option tcf
       match nth_error cfgs i with
       | Some (Some c) =>
           enabled c && settings_ok dc c b &&
+          (* every site that shares the governing name sees its own settings applied *)
+          forallb (fun c' => negb (beq (key_of (host c')) (key_of (host c))) || settings_ok dc c' b) cs &&
           let r := srank dflt conn sni (key_of (host c)) in
           forallb (fun c' => opt_le r (srank dflt conn sni (key_of (host c')))) cs
       | _ => false
